@@ -80,6 +80,19 @@ def main(argv):
                           "explanation": str(e)[:500]}
         finish(1)
 
+    # the generated-kernel tie (KernelGen.v from the C text + KernelGenProofs.v): an additional tie; when it does not check
+    # the hand-written model is still tied by the correspondence runs, so this is reported, not counted as a violation
+    try:
+        kfail = open(os.path.join(cdir, "KernelGen.v.failed")).read().strip()
+    except OSError:
+        kfail = "KernelGen.v was not generated"
+    ktie = {"generated_from": "clang AST of key.c, rdbx.c, rdb.c, srtp.c (tools/gen_kernels.py)",
+            "functions": ["srtp_key_limit_update", "srtp_key_limit_set", "srtp_index_guess", "srtp_rdb_increment", "srtp_estimate_index"],
+            "translator_failures": kfail, "equivalence_proofs_compiled": bool(status.get("KernelGenProofs.v"))}
+    ev["coverage"]["kernel_tie"] = ktie
+    if kfail or not status.get("KernelGenProofs.v"):
+        notes.append("generated-kernel tie does not check (" + (kfail or "KernelGenProofs.v does not compile against the regenerated KernelGen.v")[:160] +
+                     "): the kernels' C text changed shape; the hand-written kernel models remain tied by the correspondence runs")
     warn = open(os.path.join(cdir, "Constants.v.warn")).read().split()
     if warn:
         notes.append("constants no longer matched in source text (pinned values used): " + ",".join(warn))
